@@ -3,4 +3,6 @@ NEXT Next
 CONSTANT Polys <- AllPolys
 INVARIANT Width8
 INVARIANT Forge
+INVARIANT RunsThm
+INVARIANT RunsThm32
 CHECK_DEADLOCK FALSE
